@@ -165,8 +165,8 @@ func PricingTextIn(name, denom string, nT, nV int) string {
 				sb.WriteString(",")
 			}
 			fmt.Fprintf(&sb, `{"start_time":"%s","end_time":"%s","discount":"%s"}`,
-				Time(fmt.Sprintf("%s.t%d.start", name, i)).Format(time.RFC3339Nano),
-				Time(fmt.Sprintf("%s.t%d.end", name, i)).Format(time.RFC3339Nano),
+				textTime(Time(fmt.Sprintf("%s.t%d.start", name, i))),
+				textTime(Time(fmt.Sprintf("%s.t%d.end", name, i))),
 				discText(fmt.Sprintf("%s.t%d.disc", name, i)))
 		}
 		sb.WriteString("]")
@@ -183,6 +183,22 @@ func PricingTextIn(name, denom string, nT, nV int) string {
 	}
 	sb.WriteString("}")
 	return sb.String()
+}
+
+// MaxTimestamp is the last instant a protobuf timestamp can hold.
+func MaxTimestamp() time.Time { return time.Date(9999, 12, 31, 23, 59, 59, 999999999, time.UTC) }
+
+// textTime writes an instant as RFC 3339 text. The text's year runs from 0000 to 9999; an instant beyond either
+// end (by less than a day) is written with a zone offset of 23:59.
+func textTime(t time.Time) string {
+	const zone = 23*time.Hour + 59*time.Minute
+	switch {
+	case t.Year() > 9999:
+		return t.Add(-zone).Format("2006-01-02T15:04:05.999999999") + "-23:59"
+	case t.Year() < 0:
+		return t.Add(zone).Format("2006-01-02T15:04:05.999999999") + "+23:59"
+	}
+	return t.Format(time.RFC3339Nano)
 }
 
 // PricingTextLoose is a pricing text the keeper's parser reads but the pricing JSON schema may refuse:
